@@ -38,6 +38,27 @@ Theorem C19_gradient_is_mean :
       (sum1 (mf_add T tadd) (map (fun s => reduce_field T (hgrad s) (kl_constants e)) smp)).
 Proof. exact kl_gradient_mean. Qed.
 
+(* SampleListBase.average(op=None) (what `kl.samples.average()` reports): the pairwise-tree average
+   of the samples mean +- residual_i equals their ordered sum divided by the number of samples. *)
+Theorem C19_sample_average_is_mean :
+  forall (T : Type) (tadd tsub : T -> T -> T) (tdivn : T -> nat -> T),
+  (forall a b c, tadd a (tadd b c) = tadd (tadd a b) c) ->
+  forall (s : slist T),
+  let smp := sl_samples T tadd tsub s in
+  1 <= length smp ->
+  sl_average T tadd tsub tdivn s
+  = option_map (fun a => mf_divn T tdivn a (length smp)) (sum1 (mf_add T tadd) smp).
+Proof. exact sl_average_ordered. Qed.
+
+(* moving the expansion point keeps the number of samples (n_samples), and the moved list yields
+   exactly that many samples *)
+Theorem C19_at_keeps_sample_count :
+  forall (T : Type) (tadd tsub : T -> T -> T) (s : slist T) (p : mf T),
+  sl_n T (sl_at T s p) = sl_n T s /\
+  (length (sl_res s) = length (sl_neg s) ->
+   length (sl_samples T tadd tsub (sl_at T s p)) = sl_n T s).
+Proof. exact sl_at_count. Qed.
+
 Theorem C19_metric_is_mean :
   forall (T : Type) (tadd tsub : T -> T -> T) (tdivn : T -> nat -> T),
   (forall a b c, tadd a (tadd b c) = tadd (tadd a b) c) ->
